@@ -53,6 +53,7 @@ func Harness_C09_parked() {
 	close(ch.in)
 	st := s.WaitStatus()
 	vassert(st.Closed, "clean exit")
+	quiesce() // a goroutine past its last synchronisation may still have to return
 	vassert(liveThreads() == "", "no goroutine left behind")
 	reach("parked-done")
 }
